@@ -70,7 +70,21 @@ class NativeCodeGenerator(CodeGenerator):
         if isinstance(node, nodes.TemplateData):
             return const
 
-        return finalize.const(const)  # type: ignore
+        const = finalize.const(const)  # type: ignore
+
+        # The constant is written to the template as text. Only keep it
+        # if native_concat gets the same value back from that text,
+        # otherwise evaluate the node at runtime.
+        if not isinstance(const, str):
+            try:
+                value = literal_eval(parse(str(const), mode="eval"))
+            except (ValueError, TypeError, SyntaxError, MemoryError, RecursionError):
+                raise nodes.Impossible() from None
+
+            if repr(value) != repr(const):
+                raise nodes.Impossible()
+
+        return const
 
     def _output_child_pre(
         self, node: nodes.Expr, frame: Frame, finalize: CodeGenerator._FinalizeInfo
